@@ -264,7 +264,8 @@ if cmdline.add_modules:
 if cmdline.include:
     sys.stderr.write('=== checking for file inclusions ... ')
     sys.stderr.flush()
-    opts = tex2txt.Options(extr=inclusion_macros, repl=cmdline.replace,
+    # NB: no replacements (option --replace): the result are file names
+    opts = tex2txt.Options(extr=inclusion_macros,
                             defs=cmdline.define, lang=cmdline.language[:2],
                             dcls=cmdline.documentclass, pack=cmdline.packages,
                             nosp=cmdline.no_specials)
